@@ -280,7 +280,7 @@ func (w *Work) BuildPrograms(specs []ProgSpec, genOpts instrument.Options, extra
 		}
 		nOK++
 	}
-	if nOK == 0 && len(extraImports) == 0 {
+	if nOK == 0 && len(specs) > 0 {
 		return built, "", fmt.Errorf("no generated package survived compilation:\n%s", clip(bout))
 	}
 	// node main
